@@ -121,6 +121,10 @@ func (w *world) genBackend(svc *v1.Service) {
 		svc.Spec.ExternalTrafficPolicy = v1.ServiceExternalTrafficPolicyTypeCluster
 	}
 	svc.Spec.Selector = map[string]string{"app": []string{"a", "b"}[w.pick(2, "selector")]}
+	if w.pick(3, "selector labels") == 0 {
+		svc.Spec.Selector["track"] = "stable"
+		svc.Spec.Selector["zone"] = "z1"
+	}
 }
 
 // poolAddrs enumerates up to lim usable-or-not addresses of the pools currently in the API.
